@@ -95,7 +95,7 @@ class LConc(LT):
             return self.items[-1] if self.items else z3.IntVal(0)
         # symbolic index into a concrete list: if-chain (elements must be liftable)
         if not self.items:
-            raise IndexError
+            return z3.IntVal(0)     # only reachable under a false guard (empty range)
         res = self.items[-1]
         for k in range(len(self.items) - 2, -1, -1):
             res = _ite(j == k, self.items[k], res)
@@ -179,6 +179,33 @@ def _entailed(c):
         return bool(ENTAILS(c))
     except Exception:  # noqa
         return False
+
+
+class LWrap(LT):
+    """[fn(x) for x in base] where fn builds an arbitrary (model) object from the element"""
+
+    def __init__(self, base, fn):
+        self.base = base
+        self.fn = fn
+
+    def length(self):
+        return self.base.length()
+
+    def sel(self, j):
+        return self.fn(self.base.sel(j))
+
+
+class LRev(LT):
+    """reversed(base)"""
+
+    def __init__(self, base):
+        self.base = base
+
+    def length(self):
+        return self.base.length()
+
+    def sel(self, j):
+        return self.base.sel(simp_int(zint(self.base.length()) - 1 - zint(j)))
 
 
 def clamp_slice(n, lo, hi):
